@@ -419,8 +419,13 @@ pub fn to_stable_holes<W: Clone, Ty: EdgeType, Ix: IndexType>(
         s
     };
     for i in 0..g.n {
-        if next() % 3 == 0 {
+        let r = next() >> 11;
+        if r % 3 == 0 {
             decoys.push(out.add_node(usize::MAX));
+            if (r / 3) % 2 == 0 {
+                // a second decoy with the adjacent id: two neighbouring vacancies below live nodes
+                decoys.push(out.add_node(usize::MAX));
+            }
         }
         map.push(out.add_node(i));
     }
@@ -489,8 +494,13 @@ pub fn to_matrix_holes<W, Ty: EdgeType>(
         s
     };
     for i in 0..g.n {
-        if next() % 3 == 0 {
+        let r = next() >> 11;
+        if r % 3 == 0 {
             decoys.push(out.add_node(usize::MAX));
+            if (r / 3) % 2 == 0 {
+                // a second decoy with the adjacent id: two neighbouring vacancies below live nodes
+                decoys.push(out.add_node(usize::MAX));
+            }
         }
         map.push(out.add_node(i));
     }
